@@ -40,27 +40,126 @@ theorem scanWhile_stop (p : Int → Bool) : ∀ (l : List Int) (sm : Nat) (x : I
 theorem drop_getElem?_sub {α} (m : List α) (sm j : Nat) (h : sm ≤ j) : (m.drop sm)[j - sm]? = m[j]? := by
   rw [List.getElem?_drop]; congr 1; omega
 
-/-- inside one sub-chunk `[sm, next_map_subchunk(sm))` any two valid entries differ by less than `chunksize` -/
-theorem nextMapSubchunk_span (m : List Int) (sm : Nat) (inv : Int) (cs : Nat) (hm : ValidMonotone m inv)
-    (p q : Nat) (a b : Int) (hp1 : sm ≤ p) (hp2 : p < nextMapSubchunk m sm inv cs)
-    (hq1 : sm ≤ q) (hq2 : q < nextMapSubchunk m sm inv cs)
-    (hpa : m[p]? = some a) (hqb : m[q]? = some b) (ha : a ≠ inv) (hb : b ≠ inv) : b - a < cs := by
+/-- what the second loop of the splitter guarantees about the entries it takes: each is within `chunksize` of `start`,
+    each valid one is at least `prev`, and the valid ones are non-decreasing among themselves -/
+theorem scanAsc_spec (inv start : Int) (cs : Nat) : ∀ (l : List Int) (prev : Int) (sm : Nat),
+    (∀ (j : Nat) (x : Int), sm ≤ j → j < scanAsc inv start cs prev l sm → l[j - sm]? = some x →
+      x - start < cs ∧ (x ≠ inv → prev ≤ x)) ∧
+    (∀ (i j : Nat) (a b : Int), sm ≤ i → i ≤ j → j < scanAsc inv start cs prev l sm →
+      l[i - sm]? = some a → l[j - sm]? = some b → a ≠ inv → b ≠ inv → a ≤ b)
+  | [], prev, sm => by
+    constructor
+    · intro j x h1 h2; simp [scanAsc] at h2; omega
+    · intro i j a b h1 h2 h3; simp [scanAsc] at h3; omega
+  | y :: ys, prev, sm => by
+    by_cases hspan : y - start < (cs : Int)
+    · by_cases hval : y = inv
+      · -- a marker inside the sub-chunk: taken, `prev` unchanged
+        have hrec : scanAsc inv start cs prev (y :: ys) sm = scanAsc inv start cs prev ys (sm + 1) := by
+          subst hval
+          simp [scanAsc, hspan]
+        obtain ⟨ih1, ih2⟩ := scanAsc_spec inv start cs ys prev (sm + 1)
+        rw [hrec]
+        constructor
+        · intro j x h1 h2 h3
+          by_cases hj : j = sm
+          · subst hj; simp at h3; subst h3
+            exact ⟨hspan, fun h => absurd hval h⟩
+          · have : j - sm = (j - (sm + 1)) + 1 := by omega
+            rw [this] at h3
+            simp only [List.getElem?_cons_succ] at h3
+            exact ih1 j x (by omega) h2 h3
+        · intro i j a b h1 h2 h3 h4 h5 ha hb
+          by_cases hi : i = sm
+          · subst hi; simp at h4; subst h4
+            exact absurd hval ha
+          · have e1 : i - sm = (i - (sm + 1)) + 1 := by omega
+            have e2 : j - sm = (j - (sm + 1)) + 1 := by omega
+            rw [e1] at h4; rw [e2] at h5
+            simp only [List.getElem?_cons_succ] at h4 h5
+            exact ih2 i j a b (by omega) h2 h3 h4 h5 ha hb
+      · by_cases hdesc : y < prev
+        · -- a step back: the sub-chunk ends here
+          have hrec : scanAsc inv start cs prev (y :: ys) sm = sm := by
+            simp [scanAsc, hspan, hval, hdesc]
+          rw [hrec]
+          constructor
+          · intro j x h1 h2; omega
+          · intro i j a b h1 h2 h3; omega
+        · have hrec : scanAsc inv start cs prev (y :: ys) sm = scanAsc inv start cs y ys (sm + 1) := by
+            simp [scanAsc, hspan, hval, hdesc]
+          obtain ⟨ih1, ih2⟩ := scanAsc_spec inv start cs ys y (sm + 1)
+          rw [hrec]
+          constructor
+          · intro j x h1 h2 h3
+            by_cases hj : j = sm
+            · subst hj; simp at h3; subst h3
+              exact ⟨hspan, fun _ => by omega⟩
+            · have : j - sm = (j - (sm + 1)) + 1 := by omega
+              rw [this] at h3
+              simp only [List.getElem?_cons_succ] at h3
+              obtain ⟨g1, g2⟩ := ih1 j x (by omega) h2 h3
+              exact ⟨g1, fun h => by have := g2 h; omega⟩
+          · intro i j a b h1 h2 h3 h4 h5 ha hb
+            by_cases hi : i = sm
+            · subst hi; simp at h4; subst h4
+              by_cases hj : j = i
+              · subst hj; simp at h5; subst h5; omega
+              · have e2 : j - i = (j - (i + 1)) + 1 := by omega
+                rw [e2] at h5
+                simp only [List.getElem?_cons_succ] at h5
+                exact (ih1 j b (by omega) h3 h5).2 hb
+            · have e1 : i - sm = (i - (sm + 1)) + 1 := by omega
+              have e2 : j - sm = (j - (sm + 1)) + 1 := by omega
+              rw [e1] at h4; rw [e2] at h5
+              simp only [List.getElem?_cons_succ] at h4 h5
+              exact ih2 i j a b (by omega) h2 h3 h4 h5 ha hb
+    · have hrec : scanAsc inv start cs prev (y :: ys) sm = sm := by
+        simp [scanAsc, hspan]
+      rw [hrec]
+      constructor
+      · intro j x h1 h2; omega
+      · intro i j a b h1 h2 h3; omega
+
+/-- the facts about one sub-chunk `[sm, next_map_subchunk(sm))`, for ANY map: positions before the first valid entry
+    hold the marker; from there on every entry is within `chunksize` of that first valid entry `start`, every valid
+    entry is at least `start`, and the valid entries are non-decreasing -/
+theorem nextMapSubchunk_facts (m : List Int) (sm : Nat) (inv : Int) (cs : Nat) :
+    ∃ (sm1 : Nat) (start : Int),
+      (∀ (j : Nat) (x : Int), sm ≤ j → j < sm1 → m[j]? = some x → x = inv) ∧
+      (∀ (j : Nat) (x : Int), sm1 ≤ j → j < nextMapSubchunk m sm inv cs → m[j]? = some x →
+        x - start < cs ∧ (x ≠ inv → start ≤ x)) ∧
+      (∀ (i j : Nat) (a b : Int), sm1 ≤ i → i ≤ j → j < nextMapSubchunk m sm inv cs →
+        m[i]? = some a → m[j]? = some b → a ≠ inv → b ≠ inv → a ≤ b) := by
   have heq : nextMapSubchunk m sm inv cs =
       match m[scanWhile (fun x => x == inv) (m.drop sm) sm]? with
       | none => scanWhile (fun x => x == inv) (m.drop sm) sm
-      | some start => scanWhile (fun x => decide (x - start < (cs : Int)))
+      | some start => scanAsc inv start cs start
           (m.drop (scanWhile (fun x => x == inv) (m.drop sm) sm)) (scanWhile (fun x => x == inv) (m.drop sm) sm) := rfl
-  rw [heq] at hp2 hq2
+  rw [heq]
   have hskip : ∀ (j : Nat) (x : Int), sm ≤ j → j < scanWhile (fun x => x == inv) (m.drop sm) sm → m[j]? = some x → x = inv := by
     intro j x h1 h2 h3
     have := scanWhile_all (fun x => x == inv) (m.drop sm) sm j x h1 h2 (by rw [drop_getElem?_sub m sm j h1]; exact h3)
     simpa using this
-  have hstop : ∀ (x : Int), m[scanWhile (fun x => x == inv) (m.drop sm) sm]? = some x → x ≠ inv := by
-    intro x hx
-    have hge := scanWhile_ge (fun x => x == inv) (m.drop sm) sm
-    have := scanWhile_stop (fun x => x == inv) (m.drop sm) sm x (by rw [drop_getElem?_sub m sm _ hge]; exact hx)
-    simpa using this
-  generalize scanWhile (fun x => x == inv) (m.drop sm) sm = sm1 at hp2 hq2 hskip hstop
+  generalize scanWhile (fun x => x == inv) (m.drop sm) sm = sm1 at hskip
+  split
+  · exact ⟨sm1, 0, hskip, fun j x h1 h2 => by omega, fun i j a b h1 h2 h3 => by omega⟩
+  · rename_i start hstart
+    obtain ⟨g1, g2⟩ := scanAsc_spec inv start cs (m.drop sm1) start sm1
+    refine ⟨sm1, start, hskip, ?_, ?_⟩
+    · intro j x h1 h2 h3
+      exact g1 j x h1 h2 (by rw [drop_getElem?_sub m sm1 j h1]; exact h3)
+    · intro i j a b h1 h2 h3 h4 h5 ha hb
+      exact g2 i j a b h1 h2 h3 (by rw [drop_getElem?_sub m sm1 i h1]; exact h4)
+        (by rw [drop_getElem?_sub m sm1 j (by omega)]; exact h5) ha hb
+
+/-- inside one sub-chunk `[sm, next_map_subchunk(sm))` any two valid entries differ by less than `chunksize` — for any
+    map, ordered or not -/
+theorem nextMapSubchunk_span (m : List Int) (sm : Nat) (inv : Int) (cs : Nat)
+    (p q : Nat) (a b : Int) (hp1 : sm ≤ p) (hp2 : p < nextMapSubchunk m sm inv cs)
+    (hq1 : sm ≤ q) (hq2 : q < nextMapSubchunk m sm inv cs)
+    (hpa : m[p]? = some a) (hqb : m[q]? = some b) (ha : a ≠ inv) (hb : b ≠ inv) : b - a < cs := by
+  obtain ⟨sm1, start, hskip, hin, _⟩ := nextMapSubchunk_facts m sm inv cs
   have hp3 : sm1 ≤ p := by
     by_cases h : p < sm1
     · exact absurd (hskip p a hp1 h hpa) ha
@@ -69,21 +168,21 @@ theorem nextMapSubchunk_span (m : List Int) (sm : Nat) (inv : Int) (cs : Nat) (h
     by_cases h : q < sm1
     · exact absurd (hskip q b hq1 h hqb) hb
     · omega
-  split at hp2
-  · omega
-  · rename_i start hstart
-    have hsv := hstop start hstart
-    have hall : ∀ (j : Nat) (x : Int), sm1 ≤ j →
-        j < scanWhile (fun x => decide (x - start < (cs : Int))) (m.drop sm1) sm1 → m[j]? = some x → x - start < cs := by
-      intro j x h1 h2 h3
-      have := scanWhile_all (fun x => decide (x - start < (cs : Int))) (m.drop sm1) sm1 j x h1 h2
-        (by rw [drop_getElem?_sub m sm1 j h1]; exact h3)
-      simpa using this
-    rw [hstart] at hq2
-    simp only [] at hq2
-    have h1 := hall q b hq3 hq2 hqb
-    have h2 := hm sm1 p start a hp3 hstart hpa hsv ha
-    omega
+  have h1 := (hin p a hp3 hp2 hpa).2 ha
+  have h2 := (hin q b hq3 hq2 hqb).1
+  omega
+
+/-- the valid entries of one sub-chunk are non-decreasing — for any map (this is what the NC02a repair of
+    `next_map_subchunk` establishes: the sub-chunk ends where the map steps back) -/
+theorem nextMapSubchunk_monoOn (m : List Int) (sm : Nat) (inv : Int) (cs : Nat) :
+    MonoOn m inv sm (nextMapSubchunk m sm inv cs) := by
+  obtain ⟨sm1, start, hskip, _, hmono⟩ := nextMapSubchunk_facts m sm inv cs
+  intro i j a b hi hij hj hia hjb ha hb
+  have hi3 : sm1 ≤ i := by
+    by_cases h : i < sm1
+    · exact absurd (hskip i a hi h hia) ha
+    · omega
+  exact hmono i j a b hi3 hij hj hia hjb ha hb
 
 structure SCInv (m : List Int) (inv : Int) (cs : Nat) (s : SC) : Prop where
   tiles : Tiles s.acc 0 s.sm
@@ -115,5 +214,14 @@ theorem subchunks_made (m : List Int) (inv : Int) (cs : Nat) (hcs : 1 ≤ cs) :
   refine ⟨s'.acc, ?_, ?_, hI.made⟩
   · simp only [subchunks, hw]
   · rw [← this]; exact hI.tiles
+
+/-- the pieces tile the map chunk and the valid entries of every piece are non-decreasing, whatever the map -/
+theorem subchunks_mono (m : List Int) (inv : Int) (cs : Nat) (hcs : 1 ≤ cs) :
+    ∃ subs, subchunks m inv cs = .ok subs ∧ Tiles subs 0 m.length ∧ ∀ t ∈ subs, MonoOn m inv t.1 t.2 := by
+  obtain ⟨subs, h1, h2, h3⟩ := subchunks_made m inv cs hcs
+  refine ⟨subs, h1, h2, ?_⟩
+  intro t ht
+  rw [h3 t ht]
+  exact nextMapSubchunk_monoOn m t.1 inv cs
 
 end Exetera.MapValid
